@@ -14,8 +14,6 @@ from vlib import vZ, vbool, vlist, vopt, vpair
 
 CLAUSES = {
     0: None,
-    1: "D1_user_stop_in_[step,-1]_with_negative_step",
-    2: "D23_dok_double_normalisation",
     3: "D6_unsigned_coords_negative_step",
     4: "D21_gcxs_several_index_arrays",
     5: "D22_gcxs_none_with_only_ints_or_0d_or_dok_empty_key",
@@ -688,16 +686,3 @@ def campaign_index(build, tier, seed, report, budget=1):
     cov["samples"] = [dict(index=index_py(c["index"]), input=r["inp"], out=r["out"]) for c, r in kept[:: max(1, len(kept) // 3)][:3]]
     report.setdefault("index_coverage", {}).update(cov)
     return viol
-
-
-def retag_dok(build, viol):
-    """slice-sweep violations on DOK whose cause is the double normalisation get clause D23 (decided in Coq)"""
-    cand = [v for v in viol if v.get("format") == "dok" and v.get("clause") is None and v.get("op") == "getitem_slice"]
-    if not cand:
-        return
-    lits = [vpair(vopt(v["case"]["start"]), vopt(v["case"]["stop"]), vopt(v["case"]["step"]), vZ(v["case"]["dim"]))
-            for v in cand]
-    hits = build.judge("c02_retag", IMPORTS, "option Z * option Z * option Z * Z",
-                       "fun c => let '(a, b, st, d) := c in if twice_same (ISlice a b st) d then 0 else 1", lits)
-    for i, _code in hits:
-        cand[i]["clause"] = CLAUSES[2]
